@@ -619,7 +619,8 @@ pub fn run_c05(tier: Tier) -> i32 {
     // canonicalisation: a history whose last operation is not a lint observes nothing new
     seqs.retain(|s| s.last().map(|o| matches!(ops[*o], GOp::Lint(..))).unwrap_or(false));
     // the flood is expensive: allow it only once per history and only in second position
-    seqs.retain(|s| s.iter().filter(|o| matches!(ops[**o], GOp::Flood)).count() == 0 || (s.len() >= 3 && matches!(ops[s[1]], GOp::Flood) && s.iter().filter(|o| matches!(ops[**o], GOp::Flood)).count() == 1));
+    // (a flood costs seconds: histories of exactly three operations, flood in the middle)
+    seqs.retain(|s| s.iter().filter(|o| matches!(ops[**o], GOp::Flood)).count() == 0 || (s.len() == 3 && matches!(ops[s[1]], GOp::Flood) && s.iter().filter(|o| matches!(ops[**o], GOp::Flood)).count() == 1));
     let n = seqs.len() as u64;
     let dict = FstDictionary::curated();
     let res = par_chunks(n, 60, ncpu(), |s, e| {
